@@ -149,7 +149,7 @@ def analyse(src: Source) -> List[Report]:
         facts = hp.facts
         # R7.4 provenance at every leaf velocity write in the out-state closure (outside the commit routine)
         for ref in facts.out_closure:
-            in_commit = ref.fn.name in hp.roles.commit_subtree
+            in_commit = ref.fn.name in hp.roles.part_of(hp.roles.commit_subtree)
             for stmt, field, recv, elementwise, value in stores(ref.fn):
                 if field != "velocity":
                     continue
